@@ -829,6 +829,20 @@ pub fn gen(rng: &mut Rng, n: usize) -> Vec<Case> {
     cases
 }
 
+/// A whole `(module) { scan .. }` stanza with arms recording `$k` (used by the execution-family generators).
+pub fn gen_scan_stanza(rng: &mut Rng) -> Option<String> {
+    for _ in 0..6 {
+        let mut tag = 0;
+        let subject = gen_subject(rng, 10, false);
+        let nest = if rng.chance(30) { 2 } else { 0 };
+        let prog = vec![gen_scan(rng, Subj::Lit(subject), &mut tag, nest, 3)];
+        let dsl = render_dsl(&prog);
+        // only statically accepted stanzas (no nullable regex), so that the file still loads
+        if tree_sitter_graph::ast::File::from_str(tree_sitter_python::LANGUAGE.into(), &dsl).is_ok() { return Some(dsl); }
+    }
+    None
+}
+
 pub fn replay(j: &serde_json::Value) -> Case {
     make_case(&stmts_from_json(&j["prog"]))
 }
